@@ -197,7 +197,7 @@ m("c18-delete-malformed-depth-guard", "C18", "core/src/proof/multi_proof.rs",
 m("c18-weaken-malformed-guard", "C18", "core/src/proof/multi_proof.rs",
   "    if common_bits > siblings.len()\n        || paths\n            .iter()\n            .any(|item| item.terminal.path().len() <= common_len)\n    {\n        return Err(MultiProofVerificationError::MalformedProof);\n    }\n",
   "",
-  "panicfree|proof::multi_proof::verify_range|guarded|call:index|[common_bits..]")
+  "panicfree|proof::multi_proof::verify_range|guarded|call:index|")
 m("c18-new-index-in-confirm", "C18", "core/src/proof/path_proof.rs",
   "        self.in_scope(&expected_leaf.key_path)\n            .map(|_| self.terminal() == Some(expected_leaf))",
   "        let _b = expected_leaf.key_path[self.siblings.len()];\n        self.in_scope(&expected_leaf.key_path)\n            .map(|_| self.terminal() == Some(expected_leaf))",
@@ -404,4 +404,9 @@ m("c18-nonstrict-op-order-multi", "C18", "core/src/proof/multi_proof.rs",
 m("benign-op-order-flipped-operands", "C18", "core/src/proof/multi_proof.rs",
   "                if key <= last_key {\n                    return Err(MultiVerifyUpdateError::OpsOutOfOrder);",
   "                if last_key >= key {\n                    return Err(MultiVerifyUpdateError::OpsOutOfOrder);",
+  None)
+
+m("benign-rename-local-in-verifier", "C18", "core/src/proof/path_proof.rs",
+  "        let relevant_path = &key_path[..self.siblings.len()];\n\n        let cur_node = self.terminal.node::<H>();\n\n        let new_root = hash_path::<H>(cur_node, relevant_path, self.siblings.iter().rev().cloned());",
+  "        let used_path = &key_path[..self.siblings.len()];\n        let relevant_path = used_path;\n\n        let start_node = self.terminal.node::<H>();\n\n        let new_root = hash_path::<H>(start_node, relevant_path, self.siblings.iter().rev().cloned());",
   None)
